@@ -20,7 +20,7 @@ func (c20) Size(tier string) Size {
 	if tier == "thorough" {
 		return Size{Batches: 16, Cases: 30000}
 	}
-	return Size{Batches: 4, Cases: 3000}
+	return Size{Batches: 16, Cases: 4000}
 }
 func (c20) Rule() string {
 	return "case = struct SHAPE built at run time with reflect.StructOf: 0-8 exported fields in any order; ID of string and non-string types with/without api and json tags; every supported attribute Go type and unsupported ones (float64, []int, map, struct, **string, *[]string, interface); api tag forms attr / rel / 'rel,' / 'rel,t' / 'rel,t,inv' / 'rel,a,b,c' / unknown words / none; json tags missing, empty, duplicate, 'id'-colliding. Check(value) is called; if it accepts, Wrap (by value and by pointer), BuildType, Type.New, Copy, New, Get/Set of every declared field with a value of the field's type, Set(id) and MarshalResource must not panic and the built type must equal my own reading of the tags; if it rejects, BuildType must fail and Wrap must refuse. Also: two struct types written in Go source whose ID is promoted from an embedded struct (first and last field); after AddAttr/AddRel on one BuildType result, New() of it must not panic and New() of another BuildType result still has exactly the tagged fields. Non-trivial = shape with >= 2 tagged fields; distinct = shape text."
